@@ -296,6 +296,11 @@ func windowOK(st Step, live ...string) bool {
 	if st.Nested == nil || st.Op == nil || !windowed(st.Op.Kind) || st.Nested.Cb != nil {
 		return false
 	}
+	if st.Nested.NewCasCur {
+		// a WithMeta write that re-issues the CAS the document has: the enclosing loop cannot see that anything
+		// changed (the caller chose to reuse a version number), so the pair has no sequential reading
+		return false
+	}
 	touch := st.Nested.Kind == "Touch" || st.Nested.Kind == "GetAndTouchRaw"
 	switch st.Op.Kind {
 	case "WriteUpdateWithXattrs":
